@@ -3,7 +3,7 @@ from __future__ import annotations
 
 from typing import Callable, Dict, Optional
 
-from .rules import alias, align, dispatch, keys, ops, opt, pyx, reg, repres, sig, small, wrappers
+from .rules import alias, align, construct, dispatch, keys, ops, opt, pyx, reg, repres, sig, small, wrappers
 
 _CACHE: Dict[str, object] = {}
 
@@ -30,6 +30,11 @@ RULES: Dict[str, Callable] = {
     "R-ALIGN": _cached("R-ALIGN", align.run),
     "R-ALIAS": _cached("R-ALIAS", alias.run),
     "R-KEYS": _cached("R-KEYS", keys.run),
+    "R-NAMES": _cached("R-NAMES", construct.run_names),
+    "R-GETITEM": _cached("R-GETITEM", construct.run_getitem),
+    "R-DTYPE": _cached("R-DTYPE", construct.run_dtype),
+    "R-PAIR": _cached("R-PAIR", construct.run_pair),
+    "R-COLIDX": _cached("R-COLIDX", construct.run_colidx),
     "R-CAST": _cached("R-CAST", keys.run_cast),
     "R-DELEGATE": _cached("R-DELEGATE", wrappers.run_delegate),
     "R-ORDER": _cached("R-ORDER", wrappers.run_order),
@@ -59,6 +64,27 @@ class Use:
 
 
 PLAN: Dict[str, dict] = {
+    "C09": {
+        "uses": [Use("R-SIG", scoped=True), Use("R-DELEGATE", scoped=True), Use("R-FWD", scoped=True), Use("R-NAMES", scoped=True),
+                 Use("R-GETITEM"), Use("R-ALIGN", scoped=True), Use("R-DTYPE", scoped=True)],
+        "explanation": "x",
+        "not_decided": "",
+    },
+    "C03": {
+        "uses": [Use("R-GUARDS"), Use("R-CODEC"), Use("R-FINAL"), Use("R-NAMES"), Use("R-PAIR"), Use("R-OPT-LAYERS")],
+        "explanation": "x",
+        "not_decided": "",
+    },
+    "C06": {
+        "uses": [Use("R-COLIDX"), Use("R-ALIGN", scoped=True)],
+        "explanation": "x",
+        "not_decided": "",
+    },
+    "C16": {
+        "uses": [Use("R-PAIR"), Use("R-OPT-PAIRING"), Use("R-OPT-LAYERS"), Use("R-STABLE")],
+        "explanation": "x",
+        "not_decided": "",
+    },
     "C17": {
         "uses": [Use("R-ALIAS")],
         "explanation": "x",
@@ -95,7 +121,7 @@ PLAN: Dict[str, dict] = {
         "not_decided": "",
     },
     "C12": {
-        "uses": [Use("R-PYX-DISCARD"), Use("R-PYX-DTYPE"), Use("R-KEYS"), Use("R-CAST")],
+        "uses": [Use("R-PYX-DISCARD"), Use("R-PYX-DTYPE"), Use("R-KEYS"), Use("R-CAST"), Use("R-DTYPE")],
         "explanation": "x",
         "not_decided": "",
     },
